@@ -398,7 +398,7 @@ func runC03(c *Ctx) {
 			ok := fn == a.Teardown && kindName(e.Site) == "call"
 			why := kindName(e.Site) + " in " + c.FuncKey(fn)
 			if ok {
-				ok, why = c.coreDominatesEvent(func(in ssa.Instruction) bool { return c.isWGCall(in, a.WG, "Wait") && kindName(in) == "call" }, e.Site)
+				ok, why = c.coreDominatesEvent(func(in ssa.Instruction) bool { return c.doesWait(in) }, e.Site)
 				why = "Wait " + why
 			}
 			r.Add("R5", "disconnected:"+c.FuncKey(fn), c.InstrPos(e.Site), c.FuncKey(fn), "DISCONNECTED dispatched in the teardown only after Wait on the connection WaitGroup", ok, why)
